@@ -38,6 +38,10 @@ type leader struct {
 	repls map[uint64]*replication
 	wg    sync.WaitGroup
 
+	// replications of nodes that left the configuration: told to stop,
+	// but may still be reading the log through their view
+	retiring []*replication
+
 	// to receive updates from replicators
 	replUpdateCh chan replUpdate
 
@@ -110,6 +114,7 @@ func (l *leader) release() {
 
 	// wait for replicators to finish
 	l.wg.Wait()
+	l.retiring = nil
 	l.replUpdateCh = nil
 }
 
@@ -180,6 +185,7 @@ func (l *leader) addReplication(n Node) {
 		log:            l.storage.log.ViewAt(l.removeLTE, l.lastLogIndex),
 		snaps:          l.storage.snaps,
 		stopCh:         make(chan struct{}),
+		doneCh:         make(chan struct{}),
 		replUpdateCh:   l.replUpdateCh,
 		leaderUpdateCh: make(chan leaderUpdate, 1),
 	}
@@ -196,6 +202,7 @@ func (l *leader) addReplication(n Node) {
 	l.wg.Add(1)
 	go func() {
 		defer l.wg.Done()
+		defer close(repl.doneCh)
 		repl.runLoop(req)
 		if trace {
 			println(repl, "repl.End")
@@ -410,8 +417,27 @@ func (l *leader) notifyFlr(includeConfig bool) {
 	}
 }
 
-func (l *leader) checkLogCompact() {
+// logReaders returns the replications that may still read the log:
+// the running ones and the retiring ones that have not finished yet.
+func (l *leader) logReaders() []*replication {
+	readers := make([]*replication, 0, len(l.repls)+len(l.retiring))
 	for _, repl := range l.repls {
+		readers = append(readers, repl)
+	}
+	running := l.retiring[:0]
+	for _, repl := range l.retiring {
+		select {
+		case <-repl.doneCh:
+		default:
+			running = append(running, repl)
+		}
+	}
+	l.retiring = running
+	return append(readers, running...)
+}
+
+func (l *leader) checkLogCompact() {
+	for _, repl := range l.logReaders() {
 		if repl.status.removeLTE < l.removeLTE {
 			return
 		}
